@@ -479,6 +479,35 @@ pub fn hostile_bounds(r: &mut Xo, m: &Machine) -> (Machine, usize) {
     }
 }
 
+/// Rewrites one transition target of the machine to a value outside the states and pseudo-states
+/// (or one probability to a value outside (0,1]) and offers the result to validation. On a sound
+/// validation this returns None; whatever validation accepts is a machine the framework must run.
+pub fn hostile_structure(r: &mut Xo, m: &Machine) -> Option<Machine> {
+    let n = m.states.len();
+    let si = r.below(n as u64) as usize;
+    let mut states = m.states.clone();
+    let mut t = states[si].get_transitions();
+    let e = *r.pick(&ALL_EVENTS);
+    let bad_target = *r.pick(&[n, n + 1, 65_535, 65_536, STATE_SIGNAL - 1, STATE_END + 1, 1usize << 32, (1usize << 32) + 1, usize::MAX, usize::MAX - 1, usize::MAX / 2]);
+    match r.below(4) {
+        0 => t[e] = vec![Trans(bad_target, 1.0)],
+        1 => {
+            if t[e].is_empty() {
+                t[e] = vec![Trans(0, 0.5), Trans(bad_target, 0.5)];
+            } else {
+                t[e][0].0 = bad_target;
+            }
+        }
+        2 => t[e] = vec![Trans(0, *r.pick(&[f32::NAN, 1.5, -0.5, 0.0, f32::INFINITY, 1.0 + f32::EPSILON]))],
+        _ => t[e] = vec![Trans(0, 0.75), Trans(STATE_END, 0.75)],
+    }
+    let mut ns = State::new(t);
+    ns.action = states[si].action;
+    ns.counter = states[si].counter;
+    states[si] = ns;
+    Machine::new(m.allowed_padding_packets, m.max_padding_frac, m.allowed_blocked_microsec, m.max_blocking_frac, states).ok()
+}
+
 pub fn gen_machines(r: &mut Xo, cfg: &MCfg, lo: usize, hi: usize) -> Vec<Machine> {
     let n = r.range(lo as u64, hi as u64) as usize;
     (0..n).map(|_| gen_machine(r, cfg)).collect()
